@@ -1,5 +1,6 @@
 import OPM.Model.Composite
 import OPM.Lemmas.Composite
+import OPM.Lemmas.CompositeCalls
 /-!
 # C25 Composite hardware is transparent
 
@@ -29,27 +30,6 @@ theorem write_single (cfg : Cfg) (m : Mem V) (lay : RegId → Layer) (v : V) (r 
     (Composite.write cfg m v r).mem = setMem m (lay r) r v := by
   simp [Composite.write, hl, hf]
 
-/-- facts about the grouping used by both batch operations -/
-theorem grouping (cfg : Cfg) (lay : RegId → Layer) (regs : List RegId)
-    (hl : ∀ r ∈ regs, cfg.layerOf r = some (lay r)) :
-    ∃ gs, groupsFrom cfg [] regs = some gs ∧ (layers gs).Nodup ∧
-      (∀ g ∈ gs, g.2 = regs.filter (fun r => lay r = g.1) ∧ g.2 ≠ []) ∧
-      (∀ r ∈ regs, ∃ g ∈ gs, g.1 = lay r ∧ r ∈ g.2) := by
-  obtain ⟨gs, h1, h2, h3⟩ := groupsFrom_spec cfg lay regs hl [] ⟨by simp [layers], by simp⟩
-  refine ⟨gs, h1, h2.1, ?_, ?_⟩
-  · intro g hg
-    have := mem_find gs h2.1 g hg
-    rw [h3 g.1] at this
-    exact ⟨by simpa [find] using this.symm, h2.2 g hg⟩
-  · intro r hr
-    have hne : find gs (lay r) ≠ [] := by
-      rw [h3]; simp only [find, List.nil_append]
-      intro h
-      have : r ∈ regs.filter (fun r' => lay r' = lay r) := by simp [hr]
-      rw [h] at this; cases this
-    refine ⟨(lay r, find gs (lay r)), find_mem gs (lay r) hne, rfl, ?_⟩
-    rw [h3]; simp [find, hr]
-
 /-- Full statement, reads: a batch read through the composite returns, register for register and in
     the order of the request, exactly what a single read of each register on its own layer returns
     (duplicates allowed), and changes nothing. -/
@@ -74,39 +54,6 @@ theorem readBatch_transparent (cfg : Cfg) (m : Mem V) (lay : RegId → Layer) (r
     rw [hd2 r, if_pos ⟨g, hg, hrg⟩]
   simp [readBatch, h1, hd1, hseq]
 
-/-- … and each layer involved is asked exactly once, for exactly its registers, in request order. -/
-theorem readBatch_calls (cfg : Cfg) (m : Mem V) (lay : RegId → Layer) (regs : List RegId)
-    (hl : ∀ r ∈ regs, cfg.layerOf r = some (lay r)) (hf : ∀ r ∈ regs, cfg.failing (lay r) = false) :
-    ((readBatch cfg m regs).calls.map (·.layer)).Nodup ∧
-    (∀ c ∈ (readBatch cfg m regs).calls, c.regs = regs.filter (fun r => lay r = c.layer) ∧ c.regs ≠ []) ∧
-    (∀ r ∈ regs, lay r ∈ (readBatch cfg m regs).calls.map (·.layer)) := by
-  obtain ⟨gs, h1, h2, h3, h4⟩ := grouping cfg lay regs hl
-  have hmem : ∀ g ∈ gs, ∀ r ∈ g.2, r ∈ regs ∧ lay r = g.1 := by
-    intro g hg r hr
-    rw [(h3 g hg).1] at hr
-    simpa using hr
-  have hfg : ∀ g ∈ gs, cfg.failing g.1 = false := by
-    intro g hg
-    obtain ⟨r, hr⟩ := List.exists_mem_of_ne_nil _ (h3 g hg).2
-    have := hmem g hg r hr
-    rw [← this.2]; exact hf r this.1
-  obtain ⟨d', hd1, hd2⟩ := readGo_spec cfg m lay gs hfg (fun g hg r hr => (hmem g hg r hr).2) (fun _ => none) []
-  have hseq : sequence (regs.map d') = some (regs.map (fun r => m (lay r) r)) := by
-    apply sequence_map_some
-    intro r hr
-    obtain ⟨g, hg, _, hrg⟩ := h4 r hr
-    rw [hd2 r, if_pos ⟨g, hg, hrg⟩]
-  have hc : (readBatch cfg m regs).calls = gs.map callOfRead := by simp [readBatch, h1, hd1, hseq]
-  rw [hc]
-  refine ⟨?_, ?_, ?_⟩
-  · simpa [layers, callOfRead, Function.comp_def] using h2
-  · intro c hc
-    obtain ⟨g, hg, rfl⟩ := List.mem_map.mp hc
-    exact h3 g hg
-  · intro r hr
-    obtain ⟨g, hg, hgl, _⟩ := h4 r hr
-    exact List.mem_map.mpr ⟨callOfRead g, List.mem_map_of_mem hg, by simp [callOfRead, hgl]⟩
-
 /-- the sequence of single writes through the composite is `seqWrite` -/
 theorem fold_write_eq_seqWrite (cfg : Cfg) (lay : RegId → Layer) (ps : List (RegId × V))
     (hl : ∀ e ∈ ps, cfg.layerOf e.1 = some (lay e.1)) (hf : ∀ e ∈ ps, cfg.failing (lay e.1) = false) (m : Mem V) :
@@ -117,90 +64,6 @@ theorem fold_write_eq_seqWrite (cfg : Cfg) (lay : RegId → Layer) (ps : List (R
     simp only [List.foldl_cons, seqWrite]
     rw [(write_single cfg m lay a.2 a.1 (hl a (by simp)) (hf a (by simp))).2.2]
     exact ih (fun e he => hl e (by simp [he])) (fun e he => hf e (by simp [he])) _
-
-/-- what the write loop leaves in memory, in terms of the last value per register -/
-theorem writeBatch_mem (cfg : Cfg) (m : Mem V) (lay : RegId → Layer) (vals : List V) (regs : List RegId)
-    (hl : ∀ e ∈ pairs vals regs, cfg.layerOf e.1 = some (lay e.1))
-    (hf : ∀ e ∈ pairs vals regs, cfg.failing (lay e.1) = false) :
-    (writeBatch cfg m vals regs).res = .unit ∧
-    (∀ l r, (writeBatch cfg m vals regs).mem l r =
-      match lastV (pairs vals regs) r with
-      | some v => if lay r = l then v else m l r
-      | none => m l r) ∧
-    ((writeBatch cfg m vals regs).calls.map (·.layer)).Nodup ∧
-    (∀ c ∈ (writeBatch cfg m vals regs).calls,
-      c.regs = ((pairs vals regs).map (·.1)).filter (fun r => lay r = c.layer) ∧ c.regs ≠ [] ∧
-      c.vals.map some = c.regs.map (lastV (pairs vals regs))) ∧
-    (∀ e ∈ pairs vals regs, lay e.1 ∈ (writeBatch cfg m vals regs).calls.map (·.layer)) := by
-  generalize hps : pairs vals regs = ps at hl hf
-  cases ps with
-  | nil => simp [writeBatch, hps, groupsFrom, writeGo, lastV]
-  | cons p0 ps' =>
-    let ps := p0 :: ps'
-    let f : RegId → V := fun r => (lastV ps r).getD p0.2
-    have hl' : ∀ r ∈ ps.map (·.1), cfg.layerOf r = some (lay r) := by
-      intro r hr; obtain ⟨e, he, rfl⟩ := List.mem_map.mp hr; exact hl e he
-    obtain ⟨gs, h1, hnd, h3, h4⟩ := grouping cfg lay (ps.map (·.1)) hl'
-    have hmem : ∀ g ∈ gs, ∀ r ∈ g.2, r ∈ ps.map (·.1) ∧ lay r = g.1 := by
-      intro g hg r hr
-      rw [(h3 g hg).1] at hr
-      simpa using hr
-    have hfg : ∀ g ∈ gs, cfg.failing g.1 = false := by
-      intro g hg
-      obtain ⟨r, hr⟩ := List.exists_mem_of_ne_nil _ (h3 g hg).2
-      have := hmem g hg r hr
-      obtain ⟨e, he, hre⟩ := List.mem_map.mp this.1
-      rw [← this.2, ← hre]; exact hf e he
-    have hwv : ∀ k, (ps.foldl (fun d e => dset d e.1 e.2) (fun _ => none)) k = lastV ps k := by
-      intro k; rw [wv_fold]; cases lastV ps k <;> rfl
-    have hv : ∀ g ∈ gs, ∀ r ∈ g.2, (ps.foldl (fun d e => dset d e.1 e.2) (fun _ => none)) r = some (f r) := by
-      intro g hg r hr
-      rw [hwv]
-      have := (lastV_isSome ps r).mpr (hmem g hg r hr).1
-      cases h : lastV ps r with
-      | none => rw [h] at this; cases this
-      | some v => simp [f, h]
-    obtain ⟨m', hm1, hm2⟩ := writeGo_spec cfg _ f gs hfg hv m []
-    have hres : writeBatch cfg m vals regs = ⟨.unit, [] ++ gs.map (callOfWrite f), m'⟩ := by
-      simp only [writeBatch, hps]
-      rw [h1]; simp only; rw [hm1]
-    rw [hres]
-    refine ⟨rfl, ?mem, ?nd, ?calls, ?cover⟩
-    case nd => simpa [layers, callOfWrite, Function.comp_def] using hnd
-    case cover =>
-      intro e he
-      obtain ⟨g, hg, hgl, _⟩ := h4 e.1 (List.mem_map_of_mem (f := fun e => e.1) he)
-      exact List.mem_map.mpr ⟨callOfWrite f g, List.mem_map_of_mem hg, by simp [callOfWrite, hgl]⟩
-    case calls =>
-      intro c hc
-      obtain ⟨g, hg, rfl⟩ := List.mem_map.mp hc
-      refine ⟨(h3 g hg).1, (h3 g hg).2, ?_⟩
-      simp only [callOfWrite, List.map_map]
-      apply List.map_congr_left
-      intro r hr
-      have := hv g hg r hr
-      rw [hwv] at this
-      exact this.symm
-    intro l r
-    simp only
-    rw [hm2 l r]
-    cases h : lastV ps r with
-    | none =>
-      have hnot : ¬ r ∈ ps.map (·.1) := by
-        intro hr; have := (lastV_isSome ps r).mpr hr; rw [h] at this; cases this
-      have : ¬ ∃ g ∈ gs, g.1 = l ∧ r ∈ g.2 := by
-        rintro ⟨g, hg, _, hr⟩; exact hnot (hmem g hg r hr).1
-      rw [if_neg this]
-    | some v =>
-      have hr : r ∈ ps.map (·.1) := (lastV_isSome ps r).mp (by rw [h]; rfl)
-      have hfr : f r = v := by simp [f, h]
-      simp only
-      by_cases hlr : lay r = l
-      · obtain ⟨g, hg, hgl, hrg⟩ := h4 r hr
-        rw [if_pos ⟨g, hg, hgl.trans hlr, hrg⟩, if_pos hlr, hfr]
-      · have : ¬ ∃ g ∈ gs, g.1 = l ∧ r ∈ g.2 := by
-          rintro ⟨g, hg, hgl, hr'⟩; exact hlr ((hmem g hg r hr').2.trans hgl)
-        rw [if_neg this, if_neg hlr]
 
 /-- Full statement, writes: after a batch write through the composite every layer's memory is exactly
     what the sequence of single writes — each register on its own layer, in request order — leaves
@@ -217,51 +80,55 @@ theorem writeBatch_transparent (cfg : Cfg) (m : Mem V) (lay : RegId → Layer) (
   rw [h2 l r, seqWrite_spec]
   cases lastV (pairs vals regs) r <;> rfl
 
-theorem map_some_inj : ∀ (a b : List V), a.map some = b.map some → a = b
-  | [], [], _ => rfl
-  | [], _ :: _, h => by simp at h
-  | _ :: _, [], h => by simp at h
-  | x :: a, y :: b, h => by
-    simp only [List.map_cons, List.cons.injEq, Option.some.injEq] at h
-    rw [h.1, map_some_inj a b h.2]
-
-theorem lastV_nodup (ps : List (RegId × V)) (hnd : (ps.map (·.1)).Nodup) : ∀ e ∈ ps, lastV ps e.1 = some e.2 := by
-  induction ps with
-  | nil => intro e he; cases he
-  | cons a ps ih =>
+theorem filter_unique {α β : Type} [DecidableEq β] (f : α → β) :
+    ∀ (cs : List α), (cs.map f).Nodup → ∀ c ∈ cs, cs.filter (fun x => f x = f c) = [c] := by
+  intro cs
+  induction cs with
+  | nil => intro _ c hc; cases hc
+  | cons a cs ih =>
+    intro hnd c hc
     simp only [List.map_cons, List.nodup_cons] at hnd
-    intro e he
-    rcases List.mem_cons.mp he with h | h
-    · have hn : lastV ps a.1 = none := by
-        cases hx : lastV ps a.1 with
-        | none => rfl
-        | some v => exact absurd ((lastV_isSome ps a.1).mp (by rw [hx]; rfl)) hnd.1
-      rw [h]; simp [lastV, hn]
-    · simp [lastV, ih hnd.2 e h]
+    rcases List.mem_cons.mp hc with h | h
+    · subst h
+      have : cs.filter (fun x => f x = f c) = [] := by
+        apply List.filter_eq_nil_iff.mpr
+        intro x hx hfx
+        exact hnd.1 (by rw [← of_decide_eq_true hfx]; exact List.mem_map_of_mem hx)
+      simp [List.filter_cons, this]
+    · have hne : ¬ f a = f c := fun e => hnd.1 (by rw [e]; exact List.mem_map_of_mem h)
+      simp [List.filter_cons, hne, ih hnd.2 c h]
 
-/-- … and, when a batch names each register once, every layer receives exactly one batch: its own
-    registers with their values, in request order — the same sequence single writes would deliver to it. -/
-theorem writeBatch_calls (cfg : Cfg) (m : Mem V) (lay : RegId → Layer) (vals : List V) (regs : List RegId)
+theorem zip_fst_snd {α β : Type} : ∀ (l : List (α × β)), (l.map (·.1)).zip (l.map (·.2)) = l
+  | [] => rfl
+  | a :: l => by simp [zip_fst_snd l]
+
+/-- Full statement, write order: when a batch names each register once, the (register, value) pairs that
+    reach layer `l` — over all calls the composite makes to that layer, in order — are exactly the pairs of
+    the request that belong to `l`, in request order: the sequence the single writes deliver to that layer.
+    (How many calls carry them is not part of the claim.) -/
+theorem writeBatch_order (cfg : Cfg) (m : Mem V) (lay : RegId → Layer) (vals : List V) (regs : List RegId)
     (hl : ∀ e ∈ pairs vals regs, cfg.layerOf e.1 = some (lay e.1))
     (hf : ∀ e ∈ pairs vals regs, cfg.failing (lay e.1) = false)
-    (hnd : ((pairs vals regs).map (·.1)).Nodup) :
-    ((writeBatch cfg m vals regs).calls.map (·.layer)).Nodup ∧
-    (∀ e ∈ pairs vals regs, lay e.1 ∈ (writeBatch cfg m vals regs).calls.map (·.layer)) ∧
-    ∀ c ∈ (writeBatch cfg m vals regs).calls,
-      c.regs = ((pairs vals regs).filter (fun e => lay e.1 = c.layer)).map (·.1) ∧
-      c.vals = ((pairs vals regs).filter (fun e => lay e.1 = c.layer)).map (·.2) := by
-  obtain ⟨_, _, h3, h4, h5⟩ := writeBatch_mem cfg m lay vals regs hl hf
-  refine ⟨h3, h5, ?_⟩
-  · intro c hc
-    obtain ⟨hr, _, hv⟩ := h4 c hc
-    have hregs : c.regs = ((pairs vals regs).filter (fun e => lay e.1 = c.layer)).map (·.1) := by
-      rw [hr, List.filter_map]; rfl
-    refine ⟨hregs, ?_⟩
-    apply map_some_inj
-    rw [hv, hregs, List.map_map, List.map_map]
-    apply List.map_congr_left
-    intro e he
-    exact lastV_nodup _ hnd e ((List.mem_filter.mp he).1)
+    (hnd : ((pairs vals regs).map (·.1)).Nodup) (l : Layer) :
+    (((writeBatch cfg m vals regs).calls.filter (fun c => c.layer = l)).flatMap (fun c => c.regs.zip c.vals))
+      = (pairs vals regs).filter (fun e => lay e.1 = l) := by
+  obtain ⟨h1, h2, h3⟩ := writeBatch_calls cfg m lay vals regs hl hf hnd
+  by_cases hex : ∃ c ∈ (writeBatch cfg m vals regs).calls, c.layer = l
+  · obtain ⟨c, hc, rfl⟩ := hex
+    rw [filter_unique (fun c : Call V => c.layer) _ h1 c hc]
+    obtain ⟨hr, hv⟩ := h3 c hc
+    simp only [List.flatMap_cons, List.flatMap_nil, List.append_nil]
+    rw [hr, hv, zip_fst_snd]
+  · have e1 : (writeBatch cfg m vals regs).calls.filter (fun c => c.layer = l) = [] := by
+      apply List.filter_eq_nil_iff.mpr
+      intro c hc hcl
+      exact hex ⟨c, hc, of_decide_eq_true hcl⟩
+    have e2 : (pairs vals regs).filter (fun e => lay e.1 = l) = [] := by
+      apply List.filter_eq_nil_iff.mpr
+      intro e he hel
+      obtain ⟨c, hc, hcl⟩ := List.mem_map.mp (h2 e he)
+      exact hex ⟨c, hc, hcl.trans (of_decide_eq_true hel)⟩
+    rw [e1, e2]; rfl
 
 /-! ## Errors are passed through as well -/
 
@@ -313,6 +180,8 @@ def mem4 : Mem Int := fun l r => 100 * l + r
 example : (readBatch cfg4 mem4 [5, 0, 6, 1, 5, 3]).res = .vals [105, 0, 206, 101, 105, 303] := by decide
 example : ((readBatch cfg4 mem4 [5, 0, 6, 1, 5, 3]).calls.map (fun c => (c.layer, c.regs)))
     = [(1, [5, 1, 5]), (0, [0]), (2, [6]), (3, [3])] := by decide
+example : (((writeBatch cfg4 mem4 [7, 8, 9, 10] [5, 0, 1, 4]).calls.filter (fun c => c.layer = 1)).flatMap
+    (fun c => c.regs.zip c.vals)) = [(5, 7), (1, 9)] := by decide
 example : ((writeBatch cfg4 mem4 [7, 8, 9, 10] [5, 0, 1, 4]).calls.map (fun c => (c.layer, c.regs, c.vals)))
     = [(1, [5, 1], [7, 9]), (0, [0, 4], [8, 10])] := by decide
 /-- duplicate register inside one batch: the memory agrees with the single writes (last value wins) although
